@@ -1,4 +1,5 @@
 SPECIFICATION Spec
 INVARIANT LawHolds
 INVARIANT OneFocus
+INVARIANT InnerFocus
 CHECK_DEADLOCK FALSE
